@@ -136,7 +136,7 @@ func TruncateInBytes(s string, n int) (string, bool) {
 	truncationTarget := n - 3
 
 	// Next, let's truncate the runes to the lower possible number.
-	truncatedRunes := r[:truncationTarget]
+	truncatedRunes := r[:min(truncationTarget, len(r))]
 	for len(string(truncatedRunes)) > truncationTarget {
 		truncatedRunes = r[:len(truncatedRunes)-1]
 	}
